@@ -139,7 +139,8 @@ def run_one(h, prop):
     il, ml, _ = inside_quantifier(h, prop, il, ml)
     prop.spec_lines.update(spec)
     prop.model_lines.update(model)
-    cmp_ = engine.compare_history(h, ml, il, prop.in_projection, strict_image=getattr(prop, 'strict_image', False))
+    cmp_ = engine.compare_history(h, ml, il, prop.in_projection, strict_image=getattr(prop, 'strict_image', False),
+                                   informational=getattr(prop, 'informational_ops', ()))
     problems = [p for p in problems if p["kind"] == "impl"]
     finding = (prop.oracle(h, il_full if prop.oracle_beyond_limits else il) if not problems
                else {"reason": "implementation run did not finish", "index": len(il)})
@@ -295,12 +296,13 @@ def main():
         il, ml, lim = inside_quantifier(h, prop, il, ml)
         if lim is not None:
             stats["cut_at_limit"] = stats.get("cut_at_limit", 0) + 1
-        cmp_ = engine.compare_history(h, ml, il, prop.in_projection, strict_image=getattr(prop, 'strict_image', False))
+        cmp_ = engine.compare_history(h, ml, il, prop.in_projection, strict_image=getattr(prop, 'strict_image', False),
+                                   informational=getattr(prop, 'informational_ops', ()))
         stats[cmp_["status"]] += 1
         stats["compared_calls"] += cmp_.get("compared", 0)
         stats["abs_only"] += cmp_.get("abs_only", 0)
         if cmp_.get("informational"):
-            stats["flipped_image_disagreements"] = stats.get("flipped_image_disagreements", 0) + cmp_["informational"]
+            stats["informational_disagreements"] = stats.get("informational_disagreements", 0) + cmp_["informational"]
         if cmp_["status"] in ("diverge", "outoffuel") and h.meta.get("outside_contract"):
             # a history that is outside this property's quantifier on purpose (it exercises the model, e.g. merge() of
             # graphs that are not trees): a disagreement is reported in the evidence, it is not this property's alarm
